@@ -107,6 +107,9 @@ try:
             if not isinstance(v, type) or getattr(v, "__module__", None) != mod.__name__: continue
             try:
                 if issubclass(v, betterproto.Message):
+                    # (first the library's own resolution, on classes nothing has looked at yet: typing memoises forward
+                    #  references, so an evaluation of ours before it could paper over a stale one)
+                    cbf = v()._betterproto.cls_by_field
                     hints = typing.get_type_hints(v, vars(mod), {})
                     fs = []
                     for f in dataclasses.fields(v):
@@ -116,7 +119,6 @@ try:
                     desc["messages"][k] = fs
                     # the library's own resolution of the references (Message._type_hints -> cls_by_field, used when parsing) must
                     # succeed and name the very classes the annotations resolve to
-                    cbf = v()._betterproto.cls_by_field
                     def leaf(t):
                         while typing.get_origin(t) is not None:
                             args = [a for a in typing.get_args(t) if a is not type(None)]
